@@ -117,6 +117,54 @@ def deco_names(node) -> list[str]:
     return out
 
 
+class _CanonAug(ast.NodeTransformer):
+    """source-level canonicalisation applied before any rule looks at the tree:
+    ``T = T <op> E`` is read as ``T <op>= E`` (both spellings mean the same to every rule)"""
+
+    def visit_Assign(self, node):
+        self.generic_visit(node)
+        if len(node.targets) == 1 and isinstance(node.value, ast.BinOp) \
+                and isinstance(node.value.op, (ast.Add, ast.Sub, ast.Mult, ast.FloorDiv, ast.Mod)) \
+                and isinstance(node.targets[0], (ast.Name, ast.Attribute, ast.Subscript)):
+            t = node.targets[0]
+            if _dump_load(t) == _dump_load(node.value.left):
+                return ast.copy_location(ast.AugAssign(target=t, op=node.value.op, value=node.value.right), node)
+        return node
+
+
+class _CanonRet(ast.NodeTransformer):
+    """``x = E; return x`` (adjacent) is read as ``return E``"""
+
+    def generic_visit(self, node):
+        super().generic_visit(node)
+        for fld in ('body', 'orelse', 'finalbody'):
+            v = getattr(node, fld, None)
+            if isinstance(v, list) and len(v) >= 2 and isinstance(v[0], ast.stmt):
+                out = []
+                i = 0
+                while i < len(v):
+                    a = v[i]
+                    b = v[i + 1] if i + 1 < len(v) else None
+                    if isinstance(a, ast.Assign) and len(a.targets) == 1 and isinstance(a.targets[0], ast.Name) \
+                            and isinstance(b, ast.Return) and isinstance(b.value, ast.Name) and b.value.id == a.targets[0].id:
+                        out.append(ast.copy_location(ast.Return(value=a.value), a))
+                        i += 2
+                        continue
+                    out.append(a)
+                    i += 1
+                setattr(node, fld, out)
+        return node
+
+
+def _dump_load(e):
+    import copy
+    e = copy.deepcopy(e)
+    for n in ast.walk(e):
+        if hasattr(n, 'ctx'):
+            n.ctx = ast.Load()
+    return ast.dump(e)
+
+
 class Program:
     def __init__(self, repo: str | None = None, modules=MODULES):
         self.repo = repo or REPO
@@ -133,6 +181,7 @@ class Program:
             with open(path, encoding='utf-8') as fp:
                 src = fp.read()
             tree = ast.parse(src, filename=path)
+            tree = ast.fix_missing_locations(_CanonRet().visit(_CanonAug().visit(tree)))
         except (OSError, SyntaxError) as e:
             raise AnalysisError(f'cannot parse {path}: {e}') from e
         mi = ModuleInfo(
